@@ -26,9 +26,9 @@ type vMsgReflect struct {
 	m                    *vMsg
 }
 
-func (m *vMsg) ProtoReflect() protoreflect.Message            { return vMsgReflect{m: m} }
-func (r vMsgReflect) IsValid() bool                           { return r.m != nil }
-func (r vMsgReflect) Interface() protoreflect.ProtoMessage    { return r.m }
+func (m *vMsg) ProtoReflect() protoreflect.Message         { return vMsgReflect{m: m} }
+func (r vMsgReflect) IsValid() bool                        { return r.m != nil }
+func (r vMsgReflect) Interface() protoreflect.ProtoMessage { return r.m }
 
 // ---------------------------------------------------------------------------
 // thin transport: real manager / nodes / configuration; each node's channel is built
